@@ -93,12 +93,19 @@ HELPERS = {
     'C11': [(J, ['_greatest_common_denominatior', '_comb', 'comb', '_comb_with_replacement', 'comb_with_replacement',
                  'genotype_alleles_as_index', 'index_as_genotype_alleles', 'increment_genotype']),
             ('mchap.combinatorics', ['count_unique_genotypes']),
-            (CM + 'utils', ['posterior_as_array'])],
+            (CM + 'utils', ['posterior_as_array']),
+            # where assemble places each sampled genotype in the GP vector (VCF order of its allele numbers)
+            ('mchap.application.assemble', ['_genotype_posterior_as_array']),
+            (CM + 'classes', ['PosteriorGenotypeAllelesDistribution.as_array'])],
     'C12': [('mchap.io.loci', ['Locus._template_sequence', 'Locus.format_haplotypes', 'Locus.alleles', 'Locus.positions',
                                'LocusPrior.encode_haplotypes', 'LocusPrior.from_variant_record', '_merge_snps']),
             ('mchap.encoding.character.transcode', ['as_allelic']),
             ('mchap.encoding.integer.transcode', ['vector_as_characters', 'as_characters']),
-            ('mchap.application.call_baseclass', ['program.loci'])],
+            ('mchap.application.call_baseclass', ['program.loci']),
+            # every locus handed to the program is worked on and written exactly once (same records out as in)
+            (BC, ['program._assemble_loci_wrapped', 'program._run_stdout_single_core', 'program._worker', 'program._writer',
+                  'program._run_stdout_multi_core', 'program.run_stdout']),
+            (CM + 'classes', ['GenotypeAllelesMultiTrace.relabel'])],
     'C13': [(AM + 'haplotype_calling', ['call_posterior_haplotypes']),
             (AM + 'classes', ['PosteriorGenotypeDistribution.allele_frequencies']),
             ('mchap.mset', ['unique_idx', 'unique', 'categorize']),
@@ -152,6 +159,33 @@ HELPERS = {
 }
 
 
+# command-line values reach the programs unchanged: parsing of option values and their hand-over to the program objects, attributed
+# to the properties whose statements are about those options
+_ARGS = {
+    'parse_sample_pools': ['C06'],
+    'parse_sample_bam_paths': ['C06'],
+    'parse_sample_value_map': ['C05', 'C07', 'C17'],
+    'parse_pedigree_arguments': ['C17', 'C18'],
+    'parse_sample_temperatures': ['C01'],
+    'parse_report_fields': ['C07'],
+    'collect_default_program_arguments': ['C05', 'C06', 'C07', 'C08', 'C16'],
+    'collect_call_exact_program_arguments': ['C03', 'C16'],
+    'collect_default_mcmc_program_arguments': ['C08', 'C14'],
+    'collect_call_mcmc_program_arguments': ['C02', 'C14'],
+    'collect_call_pedigree_mcmc_program_arguments': ['C17', 'C18'],
+    'collect_assemble_mcmc_program_arguments': ['C01', 'C13', 'C15'],
+    'Parameter.add_to': ['C08'],
+    'BooleanFlag.add_to': ['C08'],
+}
+for _name, _pids in _ARGS.items():
+    for _pid in _pids:
+        _entry = [e for e in HELPERS[_pid] if e[0] == 'mchap.application.arguments']
+        if _entry:
+            if _name not in _entry[0][1]:
+                _entry[0][1].append(_name)
+        else:
+            HELPERS[_pid].append(('mchap.application.arguments', [_name]))
+
 APP = 'mchap.application.'
 CSG = 'program.call_sample_genotypes'
 _TRACE_C = [CM + 'classes.GenotypeAllelesMultiTrace', CM + 'classes.PosteriorGenotypeAllelesDistribution']
@@ -168,6 +202,9 @@ SLICES = {
              ['GT', 'GPM', 'GQ', 'SPM', 'SQ', 'AFP', 'ACP', 'AOP', 'GP', 'GL'])],
     'C13': [('assemble', 'haplotype reporting', [AM + 'haplotype_calling.', APP + 'assemble._genotype', 'mchap.mset.categorize'],
              ['GT', 'GP', 'AFP', 'AOP', 'ACP', 'REFMASKED'])],
+    'C12': [('call', 'alleles of the written genotype', [CM + 'classes.CallingMCMC', CM + 'classes.GenotypeAllelesMultiTrace.relabel'], ['GT']),
+            ('call_exact', 'alleles of the written genotype', [CM + 'exact.'], ['GT']),
+            ('call_pedigree', 'alleles of the written genotype', [PM + 'classes.PedigreeCallingMCMC', CM + 'classes.GenotypeAllelesMultiTrace.relabel'], ['GT'])],
     'C14': [('assemble', 'trace summaries', [AM + 'classes.'], ['GPM', 'GQ', 'SPM', 'SQ', 'MCI']),
             ('call', 'trace summaries', _TRACE_C, _SUMMARY_FIELDS),
             ('call_pedigree', 'trace summaries', _TRACE_C + [PM + 'classes.PedigreeAllelesMultiTrace.burn', PM + 'classes.PedigreeAllelesMultiTrace.individual'], _SUMMARY_FIELDS)],
@@ -181,9 +218,32 @@ SLICES = {
 }
 
 
+def _zero_is_a_value(ctx, pid):
+    """an option value of 0 is a value: a parsed number must not be replaced through its truthiness (`float(x) or default`,
+    `x if float(x) else default`).  Checked in the argument functions attributed to the property."""
+    import ast
+    for name, pids in _ARGS.items():
+        if pid not in pids:
+            continue
+        f = ctx.func('mchap.application.arguments.' + name)
+        def numeric(e):
+            return isinstance(e, ast.Call) and isinstance(e.func, ast.Name) and e.func.id in ('float', 'int')
+        bad = []
+        for n in ast.walk(f.node):
+            if isinstance(n, ast.BoolOp) and isinstance(n.op, ast.Or) and any(numeric(v) for v in n.values[:-1]):
+                bad.append(n)
+            if isinstance(n, ast.IfExp) and (numeric(n.test) or (isinstance(n.test, ast.UnaryOp) and isinstance(n.test.op, ast.Not) and numeric(n.test.operand))):
+                bad.append(n)
+        ctx.check(not bad, f"R{pid[1:]}.A/zero-is-a-value", f.construct('parsed numbers'),
+                  "no parsed option value is replaced through its truthiness",
+                  "a parsed number is replaced by a fallback when it is falsy: the option value 0 silently becomes the fallback"
+                  + (f" (`{ast.unparse(bad[0])}`)" if bad else ""), f.where(bad[0]) if bad else f.where())
+
+
 def run(ctx, pid):
     rule = f"R{pid[1:]}.H/reference-agreement"
     n = 0
+    _zero_is_a_value(ctx, pid)
     for mod, names in HELPERS.get(pid, ()):
         n += refspec.compare_module(ctx, mod, names, rule)
     for prog, what, prefixes, fields, *rest in SLICES.get(pid, ()):
